@@ -113,6 +113,23 @@ def canonical(term: Optional[V], polarity: Optional[bool]) -> Optional[Tuple[str
     return None
 
 
+LOSSY = {"builtins.round": "round()", "builtins.int": "int()", "math.floor": "floor()", "math.ceil": "ceil()",
+         "math.trunc": "trunc()", "builtins.abs": "abs()"}
+
+
+def lossy_image(v: Any, payload_key: str) -> Optional[str]:
+    """Is `v` a non-identity numeric function of the payload (round/int/floor/ceil/abs applied to it)?"""
+    if isinstance(v, Term) and v.op == "call" and isinstance(v.args[0], str) and v.args[0] in LOSSY:
+        if any(isinstance(a, V) and payload_key in a.key() for a in v.args[1:]):
+            return LOSSY[v.args[0]]
+    if isinstance(v, Term) and v.op in ("bin", "call", "max", "min"):
+        for a in v.args:
+            r = lossy_image(a, payload_key) if isinstance(a, V) else None
+            if r:
+                return r
+    return None
+
+
 def comparison_operands(term: V) -> Optional[Tuple[str, str]]:
     if isinstance(term, Term) and term.op in ("lt", "eq") and len(term.args) == 2:
         return _split_offset(term.args[0])[0], _split_offset(term.args[1])[0]
@@ -135,6 +152,29 @@ def extract(prog: Program, model: Model, visitor: str, hook: str, cfg: Config, u
             rows.append(Row(visitor, hook, cfg.setprops, e.data["cls"].name, term, pol, returns, e.loc(prog),
                             e.data["args"], list(facts)))
     return rows, paths
+
+
+def surplus_reported(rows: List[Row], n: int) -> Tuple[bool, str]:
+    """Exact element list of n members: are the positions n .. len(value)-1 (and only those) reported as extra?
+    Accepted: an ExtraElementValidationError whose index ranges over range(n, len(value)) - with or without an explicit
+    `len(value) > n` guard (the loop is empty otherwise) - or one raised under a guard whose relation is exactly GT."""
+    ex = [r for r in rows if r.error == "ExtraElementValidationError"]
+    if not ex:
+        return False, "surplus elements of an exact list are never reported"
+    for r in ex:
+        idx = r.args[2] if len(r.args) > 2 else None
+        if isinstance(idx, Sym) and idx.origin and idx.origin[0] == "range" and isinstance(idx.origin[1], Term):
+            rng = idx.origin[1]
+            start = rng.args[0] if len(rng.args) >= 2 else Const(0)
+            stop = rng.args[1] if len(rng.args) >= 2 else rng.args[0]
+            if isinstance(start, Const) and start.value == n and isinstance(stop, V) and stop.key() == "len(value)":
+                return True, ""
+            if isinstance(start, V) and isinstance(stop, V) and stop.key() == "len(value)":
+                return False, f"surplus positions are reported from {start.key()[:40]} on, not from {n} (the number of declared elements)"
+        guards = [(t, b) for _, t, b in r.all_facts if isinstance(t, Term)]
+        if any(relation(t, b, "len(value)", str(n)) == frozenset({"GT"}) for t, b in guards):
+            return True, ""
+    return False, "surplus elements are not reported exactly when len(value) > number of declared elements"
 
 
 def dedupe(rows: List[Row]) -> List[Row]:
